@@ -30,7 +30,11 @@ def main():
         return 1 if hit else 0
     batches = mod.batches(tier, seed)
     res = core.run_batches(mod.worker, batches, timeout=getattr(mod, "TIMEOUT", 600))
-    extra = mod.extra(tier, seed, res) if hasattr(mod, "extra") else None
+    try:
+        extra = mod.extra(tier, seed, res) if hasattr(mod, "extra") else None
+    except core.Inconclusive as e:     # a deciding sub-monitor was never reached: not "held"
+        print(f"INCONCLUSIVE property={prop} reason={e}")
+        return 2
     return core.finish(prop, tier, seed, res, mod.RULE, t0, exhaustive=getattr(mod, "EXHAUSTIVE", False),
                        assumptions=getattr(mod, "ASSUMPTIONS", ()), min_evals=getattr(mod, "MIN_EVALS", 10), extra=extra)
 
